@@ -289,6 +289,26 @@ fn cross(ctx: &Ctx, rep: &mut Report) {
                             rep.violation(&format!("C19 reference-rejects-library-proof {sig}"), "a proof from the library is rejected by the independent verifier", replay.clone());
                         }
                     }
+                    // the challenges the library draws are those of the documented transcript layout
+                    {
+                        merlin::probe::arm();
+                        let _ = verify_one(&case.transcript(), &case.statement_public(), &lp, VerifyAction::VerifyOnly);
+                        let ev = merlin::probe::take();
+                        if let Some(lr) = lparts.to_ref() {
+                            let want = refbp::ref_challenges(&case.transcript(), &rst, &lr);
+                            let got = observed_challenges(&ev);
+                            rep.count("challenge_sequences_compared", 1);
+                            if got.first().and_then(|g| as_challenges(g, lr.l.len())).map(|c| c.y != want.y || c.z != want.z || c.rounds != want.rounds || c.e != want.e).unwrap_or(true) {
+                                rep.violation(&format!("C19 challenges-differ {sig}"), "the challenges the library draws differ from those of the documented transcript layout", replay.clone());
+                            }
+                            if let Some(s) = case.seed {
+                                rep.count("reference_recoveries", 1);
+                                if refbp::ref_recover(&case.transcript(), &rst, &lr, &s) != case.blindings[0] {
+                                    rep.violation(&format!("C19 reference-recovery-differs {sig}"), "the documented recovery, implemented independently, does not return the blinding vector from the library's seeded proof", replay.clone());
+                                }
+                            }
+                        }
+                    }
                     if case.seed.is_some() {
                         let rparts = Parts::from_bytes(&rbytes);
                         rep.count("seeded_prover_pairs_compared", 1);
